@@ -4,7 +4,7 @@ import json
 import common
 import gen
 
-TWINS = ['pred', 'weights', 'salt', 'label', 'invalid']      # harness/twins.py: which part of a twin text carries the difference
+TWINS = ['pred', 'weights', 'salt', 'label', 'trivia', 'invalid']      # harness/twins.py: which part of a twin text carries the difference
 
 N = {"quick": 250, "thorough": 4000}
 LEN = {"quick": 40, "thorough": 400}
